@@ -144,6 +144,9 @@ func (e *Encoder) writeMap(data interface{}) (int, error) {
 		count = vv.NumField()
 		for i := 0; i < count; i++ {
 			f := vv.Field(i)
+			if !f.CanInterface() {
+				return 0, newCodecError("writeMap", "unexported field %s of %v can not be encoded", typ.Field(i).Name, typ)
+			}
 			if _, err := e.writeString(f.Type().Name()); err != nil {
 				return 0, err
 			}
